@@ -213,6 +213,7 @@ type bscPacket struct {
 type bscWorld struct {
 	rec          *kernel.Rec
 	cfg          map[string]int64
+	wallNext     bool
 	now          time.Time
 	host         *node.Chain
 	gov          *node.Account
@@ -310,6 +311,12 @@ func (BSCScenario) Generate(rng *rand.Rand, focus, tier string) kernel.Plan {
 		default:
 			add("export")
 		}
+	}
+	if focus == "C14" && kernel.Chance(rng, 0.04) {
+		// wall-clock probe: one honest header stamped just ahead of the real clock, delivered in its own block
+		add("wallclock")
+		add("hdr", 0, rng.Int63())
+		add("block", 3)
 	}
 	add("block", 10)
 	add("export")
@@ -484,6 +491,8 @@ func (w *bscWorld) apply(op kernel.Op) {
 		if op.Arg(0) > 3600 {
 			w.rec.Fault("clock.jump")
 		}
+	case "wallclock":
+		w.wallNext = w.rec.Focus == "C14"
 	case "crash":
 		w.crashNext = int(kernel.Mod(op.Arg(0), 3)) + 1
 	case "export":
@@ -554,6 +563,14 @@ func (w *bscWorld) opHeader(op kernel.Op) {
 	h := &ethtypes.Header{ParentHash: base.head.Hash(), UncleHash: emptyUncleHash, Root: sn.root, TxHash: ethtypes.EmptyRootHash,
 		ReceiptHash: ethtypes.EmptyRootHash, Number: new(big.Int).SetUint64(number), GasLimit: base.head.GasLimit, GasUsed: uint64(r.Intn(1000)),
 		Time: uint64(w.now.Unix())}
+	if w.wallNext && mut == "none" {
+		// wall-clock probe (C14): an honest header stamped a few seconds ahead of the real clock. The client has
+		// no rule about header times, so every node must treat it alike whenever it executes the block.
+		w.wallNext = false
+		h.Time = uint64(time.Now().Unix()) + 4
+		w.rec.MarkWallClockProbe()
+		w.rec.Fault("env.wallclock_header")
+	}
 	// honest signer choice: in-turn if eligible, else any eligible validator
 	el := eligibleOf(base, number)
 	if len(el) == 0 {
